@@ -63,7 +63,7 @@ Twice == <<<<>>, <<>>>>
 
 Init ==
   \/ \E k1 \in 1..NK, sh \in {"nest2", "seq2"} : row = [k |-> "f0", k1 |-> k1, sh |-> sh, done |-> FALSE]
-  \/ \E t \in 1..18 : row = [k |-> "s0", t |-> t, done |-> FALSE]
+  \/ \E t \in 1..Scope!NTemplates : row = [k |-> "s0", t |-> t, done |-> FALSE]
   \/ \E sh \in 1..Alias!NShapes : row = [k |-> "a0", sh |-> sh, done |-> FALSE]
   \/ \E k1 \in 1..NK : row = [k |-> "o0", k1 |-> k1, done |-> FALSE]
   \/ \E sc \in 1..2, m1 \in 0..9 : row = [k |-> "h0", sc |-> sc, m1 |-> m1, done |-> FALSE]
@@ -82,10 +82,12 @@ Next ==
              /\ (row.k1 + 3 * k2 + 5 * k3 + Seed - 1) % (IF Tier = "thorough" THEN 7 ELSE 101) = 0
              /\ row' = MkRow("flow3", Flow!Prog("nest3", row.k1, k2, k3), Flow!Objs(Flow!Fields(<<row.k1, k2, k3>>)))
      \/ /\ row.k = "s0"
-        /\ \E a \in 1..3, b \in 1..3, place \in 1..6, before \in BOOLEAN :
+        /\ \E a \in 1..3, b \in 1..3, place \in 1..6, place2 \in 0..6, before \in BOOLEAN :
              /\ a # b
-             /\ (Tier = "thorough" \/ (row.t + a + 2 * b + place + Seed - 1) % 3 = 0)
-             /\ row' = MkRow("scope", Scope!Prog(row.t, Scope!Names[a], Scope!Names[b], place, before), Twice)
+             /\ ~(place = 6 /\ place2 = 6)
+             /\ (IF Tier = "thorough" THEN (place2 = 0 \/ (row.t + a + b + place + place2 + Seed - 1) % 4 = 0)
+                                      ELSE (place2 = 0 /\ (row.t + a + 2 * b + place + Seed - 1) % 3 = 0))
+             /\ row' = MkRow("scope", Scope!ProgAt(row.t, Scope!Names[a], Scope!Names[b], place, place2, before), Twice)
      \/ /\ row.k = "a0"
         /\ \E s \in 1..Len(Alias!Sources), m \in 1..Len(Alias!Muts) :
              /\ (Tier = "thorough" \/ (row.sh + s + m + Seed - 1) % 3 = 0)
